@@ -83,3 +83,8 @@ chk("C10", "model-based PBT: programs over up to 180 live variables of every sto
     "Variables of all kinds (auto/explicit ScratchVars, ABI values as scratch or frame cells incl. >128 locals, DynamicScratchVars re-pointed over time) are written with unique markers and read back in random interleavings across main and subroutines under every option setting; each observed read must equal the model's last store; requested ids must be the slots used; programs needing >256 slots or duplicating a requested id must be rejected, those within the limit accepted.",
     "Trusts vf/recipe/eval.py cell model, vf/avm, C04 static predicate.",
     "DESIGN.md section 2 C10")
+
+chk("C11", "history-based PBT: generated compilation histories (builds, pure queries, compiles, failing compiles, router compiles) replayed in fresh subprocesses under several hash seeds vs a pristine process; plus an in-process Hypothesis RuleBasedStateMachine with a recompile invariant",
+    "Each generated history is executed in a fresh interpreter (subprocess) under PYTHONHASHSEED 0/1/4242 and ends by compiling the target twice; both texts must equal the text of a pristine process that only compiled the target. An in-process rule-based state machine additionally checks that every (program, options) always compiles to the text it compiled to first, also after failing compilations, and that repeated Router.compile_program is stable (finding F12 lists where it is not).",
+    "Trusts subprocess isolation and the worker script (public PyTeal calls only).",
+    "DESIGN.md section 2 C11")
